@@ -5,3 +5,7 @@ import KskmProofs.C01
 import KskmProofs.C02
 import KskmProofs.C04
 import KskmProofs.C15
+import KskmProofs.C08
+import KskmProofs.C09
+import KskmProofs.C13
+import KskmProofs.C03
